@@ -1,0 +1,226 @@
+//! Verification seam. Compiled only with `--cfg purl_verif`; never part of a
+//! normal build.
+//!
+//! [`HashMap`] is a thin wrapper around the standard library hash map whose
+//! hasher state comes from a thread-local *hash plan* instead of the operating
+//! system's entropy, so that a deterministic simulator can decide (and replay)
+//! the iteration order of every map the library creates. The table, probing,
+//! growth and iteration are the standard library's own code.
+//!
+//! Nothing in here draws randomness or reads a clock.
+
+use std::cell::Cell;
+use std::collections::hash_map::{IntoIter, Iter, IterMut};
+use std::collections::HashMap as StdHashMap;
+use std::fmt;
+use std::hash::{BuildHasher, Hash, Hasher};
+use std::ops::{Deref, DerefMut};
+
+/// How hash values are derived from the bytes fed to the hasher.
+#[derive(Clone, Copy, Debug, Eq, PartialEq)]
+pub enum HashMode {
+    /// FNV-1a over the bytes with the plan's key mixed in. All maps created
+    /// while the plan is installed share the key.
+    Keyed,
+    /// Every key hashes to the same value.
+    Constant,
+    /// The hash is the number of bytes written.
+    LenOnly,
+    /// The hash is the first byte written.
+    FirstByte,
+    /// Like `Keyed`, but every map instance created gets a different key
+    /// (derived from the plan's key and the instance counter), the way
+    /// `RandomState` behaves.
+    KeyedPerInstance,
+}
+
+thread_local! {
+    static PLAN: Cell<(HashMode, u64)> = const { Cell::new((HashMode::Keyed, 0)) };
+    static INSTANCES: Cell<u64> = const { Cell::new(0) };
+}
+
+/// Install the hash plan used by every map created on this thread from now on,
+/// and reset the instance counter.
+pub fn install_hash_plan(mode: HashMode, key: u64) {
+    PLAN.with(|p| p.set((mode, key)));
+    INSTANCES.with(|c| c.set(0));
+}
+
+/// The number of hasher states created on this thread since the last
+/// [`install_hash_plan`].
+pub fn maps_created() -> u64 {
+    INSTANCES.with(|c| c.get())
+}
+
+fn mix(mut z: u64) -> u64 {
+    z = z.wrapping_add(0x9e37_79b9_7f4a_7c15);
+    z = (z ^ (z >> 30)).wrapping_mul(0xbf58_476d_1ce4_e5b9);
+    z = (z ^ (z >> 27)).wrapping_mul(0x94d0_49bb_1331_11eb);
+    z ^ (z >> 31)
+}
+
+/// The per-map hasher state.
+#[derive(Clone, Copy, Debug)]
+pub struct SimBuildHasher {
+    mode: HashMode,
+    key: u64,
+}
+
+impl Default for SimBuildHasher {
+    fn default() -> Self {
+        let (mode, key) = PLAN.with(|p| p.get());
+        let instance = INSTANCES.with(|c| {
+            let n = c.get();
+            c.set(n + 1);
+            n
+        });
+        let key = match mode {
+            HashMode::KeyedPerInstance => mix(key ^ mix(instance)),
+            _ => key,
+        };
+        SimBuildHasher { mode, key }
+    }
+}
+
+impl BuildHasher for SimBuildHasher {
+    type Hasher = SimHasher;
+
+    fn build_hasher(&self) -> SimHasher {
+        SimHasher {
+            mode: self.mode,
+            state: 0xcbf2_9ce4_8422_2325 ^ self.key,
+            len: 0,
+            first: None,
+        }
+    }
+}
+
+/// The hasher.
+#[derive(Clone, Copy, Debug)]
+pub struct SimHasher {
+    mode: HashMode,
+    state: u64,
+    len: u64,
+    first: Option<u8>,
+}
+
+impl Hasher for SimHasher {
+    fn write(&mut self, bytes: &[u8]) {
+        for b in bytes {
+            if self.first.is_none() {
+                self.first = Some(*b);
+            }
+            self.len += 1;
+            self.state = (self.state ^ u64::from(*b)).wrapping_mul(0x0000_0100_0000_01b3);
+        }
+    }
+
+    fn finish(&self) -> u64 {
+        match self.mode {
+            HashMode::Keyed | HashMode::KeyedPerInstance => mix(self.state),
+            HashMode::Constant => 0,
+            // Spread over the top bits as well: hashbrown takes the bucket from
+            // the low bits and the control byte from the top seven.
+            HashMode::LenOnly => self.len.wrapping_mul(0x0101_0101_0101_0101),
+            HashMode::FirstByte => {
+                u64::from(self.first.unwrap_or(0)).wrapping_mul(0x0101_0101_0101_0101)
+            },
+        }
+    }
+}
+
+/// `std::collections::HashMap` with the simulator-controlled hasher.
+pub struct HashMap<K, V>(StdHashMap<K, V, SimBuildHasher>);
+
+impl<K, V> HashMap<K, V> {
+    /// See `std::collections::HashMap::new`.
+    pub fn new() -> Self {
+        Self::default()
+    }
+
+    /// See `std::collections::HashMap::with_capacity`.
+    pub fn with_capacity(capacity: usize) -> Self {
+        HashMap(StdHashMap::with_capacity_and_hasher(capacity, SimBuildHasher::default()))
+    }
+}
+
+impl<K, V> Default for HashMap<K, V> {
+    fn default() -> Self {
+        HashMap(StdHashMap::with_hasher(SimBuildHasher::default()))
+    }
+}
+
+impl<K: Clone, V: Clone> Clone for HashMap<K, V> {
+    fn clone(&self) -> Self {
+        HashMap(self.0.clone())
+    }
+}
+
+impl<K: fmt::Debug, V: fmt::Debug> fmt::Debug for HashMap<K, V> {
+    fn fmt(&self, f: &mut fmt::Formatter<'_>) -> fmt::Result {
+        self.0.fmt(f)
+    }
+}
+
+impl<K: Eq + Hash, V: PartialEq> PartialEq for HashMap<K, V> {
+    fn eq(&self, other: &Self) -> bool {
+        self.0 == other.0
+    }
+}
+
+impl<K: Eq + Hash, V: Eq> Eq for HashMap<K, V> {}
+
+impl<K, V> Deref for HashMap<K, V> {
+    type Target = StdHashMap<K, V, SimBuildHasher>;
+
+    fn deref(&self) -> &Self::Target {
+        &self.0
+    }
+}
+
+impl<K, V> DerefMut for HashMap<K, V> {
+    fn deref_mut(&mut self) -> &mut Self::Target {
+        &mut self.0
+    }
+}
+
+impl<K, V> IntoIterator for HashMap<K, V> {
+    type IntoIter = IntoIter<K, V>;
+    type Item = (K, V);
+
+    fn into_iter(self) -> Self::IntoIter {
+        self.0.into_iter()
+    }
+}
+
+impl<'a, K, V> IntoIterator for &'a HashMap<K, V> {
+    type IntoIter = Iter<'a, K, V>;
+    type Item = (&'a K, &'a V);
+
+    fn into_iter(self) -> Self::IntoIter {
+        self.0.iter()
+    }
+}
+
+impl<'a, K, V> IntoIterator for &'a mut HashMap<K, V> {
+    type IntoIter = IterMut<'a, K, V>;
+    type Item = (&'a K, &'a mut V);
+
+    fn into_iter(self) -> Self::IntoIter {
+        self.0.iter_mut()
+    }
+}
+
+impl<K: Eq + Hash, V> FromIterator<(K, V)> for HashMap<K, V> {
+    fn from_iter<I: IntoIterator<Item = (K, V)>>(iter: I) -> Self {
+        let mut map = Self::default();
+        map.0.extend(iter);
+        map
+    }
+}
+
+impl<K: Eq + Hash, V> Extend<(K, V)> for HashMap<K, V> {
+    fn extend<I: IntoIterator<Item = (K, V)>>(&mut self, iter: I) {
+        self.0.extend(iter)
+    }
+}
